@@ -125,3 +125,25 @@ pub proof fn lemma_low_bits_of_trunc(t: nat, r: nat, h: nat, b: nat)
     assert(t == m * pb + r) by (nonlinear_arith) requires t == r + h * (pb * vstd::arithmetic::power2::pow2((64 - b) as nat)), m == h * vstd::arithmetic::power2::pow2((64 - b) as nat);
     vstd::arithmetic::div_mod::lemma_mod_multiples_vanish(m as int, r as int, pb as int);
 }
+
+/// little-endian value of digits in an arbitrary radix
+pub open spec fn valr(s: Seq<u8>, radix: nat, k: nat) -> nat
+    decreases k
+{
+    if k == 0 { 0 } else { valr(s, radix, (k - 1) as nat) + (s[k - 1] as nat) * (vstd::arithmetic::power::pow(radix as int, (k - 1) as nat) as nat) }
+}
+
+/// for radix 2^bits the two valuations coincide
+pub proof fn lemma_valb_is_valr(s: Seq<u8>, bits: nat, k: nat)
+    ensures valb(s, bits, k) == valr(s, vstd::arithmetic::power2::pow2(bits), k)
+    decreases k
+{
+    if k > 0 {
+        lemma_valb_is_valr(s, bits, (k - 1) as nat);
+        let m = (k - 1) as nat;
+        vstd::arithmetic::power2::lemma_pow2(bits);
+        vstd::arithmetic::power::lemma_pow_multiplies(2, bits, m);
+        vstd::arithmetic::power2::lemma_pow2(bits * m);
+        vstd::arithmetic::power2::lemma_pow2_pos(bits * m);
+    }
+}
